@@ -1,3 +1,33 @@
-import JSight.Basic
+import JSight.Proofs.Registry
+/-!
+C10 — declaration order is free at the name level: permuting the declarations of a document changes neither
+whether it is accepted nor the set of entries of any collection.
+-/
 namespace JSight.C10
+open JSight.Reg
+
+theorem perm_accepted (l₁ l₂ : List Decl) (h : l₁.Perm l₂) :
+    (∃ es, addAll [] l₁ = .ok es) ↔ (∃ es, addAll [] l₂ = .ok es) := by
+  have hp : (l₁.map (fun d => (d.coll, d.key))).Perm (l₂.map (fun d => (d.coll, d.key))) := h.map _
+  constructor
+  · intro ⟨es, he⟩
+    exact ⟨_, (addAll_nil_ok_iff l₂ _).mpr ⟨hp.nodup_iff.mp ((addAll_nil_ok_iff l₁ es).mp he).1, rfl⟩⟩
+  · intro ⟨es, he⟩
+    exact ⟨_, (addAll_nil_ok_iff l₁ _).mpr ⟨hp.nodup_iff.mpr ((addAll_nil_ok_iff l₂ es).mp he).1, rfl⟩⟩
+
+theorem perm_entries (l₁ l₂ : List Decl) (h : l₁.Perm l₂) (e₁ e₂ : Entries)
+    (h₁ : addAll [] l₁ = .ok e₁) (h₂ : addAll [] l₂ = .ok e₂) :
+    e₁.Perm e₂ ∧ ∀ c, (collection e₁ c).Perm (collection e₂ c) := by
+  have hp : e₁.Perm e₂ := by
+    rw [((addAll_nil_ok_iff l₁ e₁).mp h₁).2, ((addAll_nil_ok_iff l₂ e₂).mp h₂).2]
+    exact h.map _
+  exact ⟨hp, collection_perm e₁ e₂ hp⟩
+
+/-! non-vacuity -/
+local instance {ε α : Type} [DecidableEq ε] [DecidableEq α] : DecidableEq (Except ε α) := decExcept
+example : addAll [] [⟨.types, 1, 10⟩, ⟨.macros, 1, 20⟩, ⟨.types, 2, 30⟩]
+    = .ok [(.types, 1), (.macros, 1), (.types, 2)] := by decide
+example : addAll [] [⟨.types, 2, 30⟩, ⟨.types, 1, 10⟩, ⟨.macros, 1, 20⟩]
+    = .ok [(.types, 2), (.types, 1), (.macros, 1)] := by decide
+
 end JSight.C10
